@@ -324,3 +324,16 @@ package v2
 //@   at call LabelSet).Fingerprint assert [this-alert_s-fingerprint] arg0 == a.Labels
 //@   ensures [the-marker_s-answer] result == ret("AlertMarker).Status")
 //@   noeffect dynamic:param:setAlertStatus NewAlertMarker marker.WithContext
+
+// ---- C17: the status API serves the textual form of the configuration in force *now* - rendered from the
+// configuration the last Update installed, at every request, under the read lock - never a text kept from earlier.
+//@ func (*API).getStatusHandler
+//@   props C17
+//@   nosafe
+//@   at call Config).String assert [the-configuration-in-force-under-the-lock] arg0 == deref(api.alertmanagerConfig) && count("RWMutex).RLock") == 1 && count("RWMutex).RUnlock") == 0
+//@   at call WithPayload assert [that-text-is-what-is-served] arg1 != nil && arg1.Config != nil && arg1.Config.Original != nil && deref(arg1.Config.Original) == ret("Config).String")
+//@   ensures [rendered-once-per-request] count("Config).String") == 1 && count("WithPayload") == 1
+//@   ensures [monitor-lock-released] count("RWMutex).RLock") == 1 && count("RWMutex).RUnlock") == 1
+//@   loop 1 invariant fresh(peers) && count("Config).String") == 1 && count("WithPayload") == 0 && count("RWMutex).RLock") == 1 && count("RWMutex).RUnlock") == 0
+//@   noeffect Config).String ClusterPeer).Status ClusterPeer).Peers ClusterPeer).Name ClusterMember).Address ClusterMember).Name
+//@   assigns nothing
